@@ -16,6 +16,7 @@ package server
 
 import (
 	"fmt"
+	"github.com/mimiro-io/datahub/internal/verifhook"
 
 	"github.com/dgraph-io/badger/v4"
 
@@ -48,7 +49,9 @@ func (b BadgerAccess) IsDatasetDeleted(datasetID types.InternalDatasetID) bool {
 }
 
 func (b BadgerAccess) LookupExpansionPrefix(namespaceURI types.URI) (types.Prefix, error) {
+	verifhook.Acquire(b.dsm.store.database, "ns.lock", b.dsm.store.NamespaceManager)
 	b.dsm.store.NamespaceManager.lock.Lock()
+	defer verifhook.Release(b.dsm.store.database, "ns.lock", b.dsm.store.NamespaceManager)
 	defer b.dsm.store.NamespaceManager.lock.Unlock()
 	if prefix, found := b.dsm.store.NamespaceManager.expansionToPrefixMapping[string(namespaceURI)]; found {
 		return types.Prefix(prefix), nil
@@ -57,7 +60,9 @@ func (b BadgerAccess) LookupExpansionPrefix(namespaceURI types.URI) (types.Prefi
 }
 
 func (b BadgerAccess) LookupNamespaceExpansion(prefix types.Prefix) (types.URI, error) {
+	verifhook.Acquire(b.dsm.store.database, "ns.lock", b.dsm.store.NamespaceManager)
 	b.dsm.store.NamespaceManager.lock.Lock()
+	defer verifhook.Release(b.dsm.store.database, "ns.lock", b.dsm.store.NamespaceManager)
 	defer b.dsm.store.NamespaceManager.lock.Unlock()
 	if expansion, found := b.dsm.store.NamespaceManager.prefixToExpansionMapping[string(prefix)]; found {
 		return types.URI(expansion), nil
